@@ -30,18 +30,30 @@ Definition w_tr (c p : nat) : Z :=
   match c, p with
   | 0, 3 => 1%Z
   | 3, (3|6) => 1%Z
-  | 2, (9|10) => 1%Z
-  | 1, (4|5|22) => 1%Z
+  | 2, (10|11|14) => 1%Z       (* 14: the feeder's thread has ended, the token is gone with it *)
+  | 1, (4|5|24) => 1%Z
   | _, _ => 0%Z
   end.
 Definition w_rl (c p : nat) : Z :=          (* holds the reader lock *)
   match c, p with
-  | 1, (3|4|12|14|17|19|21|22|23) => 1%Z
+  | 1, (3|4|12|14|16|19|21|23|24|25) => 1%Z
   | _, _ => 0%Z
   end.
 Definition w_wl (c p : nat) : Z :=          (* holds the writer lock *)
   match c, p with
-  | 2, (10|11) => 1%Z
+  | 2, (11|12) => 1%Z
+  | _, _ => 0%Z
+  end.
+(* JoinableQueue's count of unfinished tasks: a put past its _unfinished_tasks.release() and not
+   yet returned; a task_done past its successful _unfinished_tasks.acquire(False) *)
+Definition w_pc (c p : nat) : Z :=
+  match c, p with
+  | 3, (12|13|14) => 1%Z
+  | _, _ => 0%Z
+  end.
+Definition w_dc (c p : nat) : Z :=
+  match c, p with
+  | 4, (5|8|10|12|16|18|24|27|30) => 1%Z
   | _, _ => 0%Z
   end.
 Definition w_nl (c p : nat) : Z :=          (* holds the lock of its process's _notempty *)
@@ -58,13 +70,48 @@ Definition qt_rl (t : qthread) : Z := if qfin t then 0 else w_rl (qcid t) (qpc t
 Definition qt_wl (t : qthread) : Z := if qfin t then 0 else w_wl (qcid t) (qpc t).
 Definition qt_nl (p : nat) (t : qthread) : Z :=
   if qfin t then 0 else if Nat.eqb (qproc t) p then w_nl (qcid t) (qpc t) else 0.
-(* the message a feeder has popped and not yet sent *)
+(* the message a feeder has popped and not yet sent (pc 14: and never will: its thread has ended) *)
 Definition ftr (t : qthread) : list Z :=
   if qfin t then [] else
   match qcid t, qpc t with
-  | 2%nat, (9%nat | 10%nat) => [r2 (qrg t)]
+  | 2%nat, (10%nat | 11%nat | 14%nat) => [r2 (qrg t)]
   | _, _ => []
   end.
+
+Fixpoint zcnt (m : Z) (l : list Z) : Z :=
+  match l with [] => 0 | x :: r => (if x =? m then 1 else 0) + zcnt m r end.
+(* the message a get has received and not yet returned (between its receive and its return the
+   only steps left are the two releases, which cannot fail: see qstep_inv) *)
+Definition gheld (t : qthread) : list Z :=
+  if qfin t then [] else
+  match qcid t, qpc t with
+  | 1%nat, (4%nat | 5%nat | 24%nat | 25%nat) => [r4 (qrg t)]
+  | _, _ => []
+  end.
+(* how many of the finished get calls of a thread returned m *)
+Fixpoint rcount (m : Z) (res : list (qcall * Z)) : Z :=
+  match res with
+  | [] => 0
+  | (c, v) :: r => (if Nat.eqb (fst (fst (fst c))) 1 && (v =? m) then 1 else 0) + rcount m r
+  end.
+(* finished JoinableQueue.put calls that returned (did not raise Full); finished task_done calls
+   that did not raise ValueError("task_done() called too many times") *)
+Fixpoint pcount (res : list (qcall * Z)) : Z :=
+  match res with
+  | [] => 0
+  | (c, v) :: r => (if Nat.eqb (fst (fst (fst c))) 3 && (v =? V_NONE) then 1 else 0) + pcount r
+  end.
+Fixpoint dcount (res : list (qcall * Z)) : Z :=
+  match res with
+  | [] => 0
+  | (c, v) :: r => (if Nat.eqb (fst (fst (fst c))) 4 && negb (v =? E_VALUE) then 1 else 0) + dcount r
+  end.
+(* contribution of a thread to the number of unfinished tasks: puts counted - task_dones counted *)
+Definition qw_unf (t : qthread) : Z := if qfin t then 0 else w_pc (qcid t) (qpc t) - w_dc (qcid t) (qpc t).
+Definition qt_unf (t : qthread) : Z := pcount (qresults t) - dcount (qresults t) + qw_unf t.
+Lemma qt_unf_eq : forall t, qt_unf t = pcount (qresults t) - dcount (qresults t) + qw_unf t.
+Proof. reflexivity. Qed.
+Definition qt_ret (m : Z) (t : qthread) : Z := rcount m (qresults t) + zcnt m (gheld t).
 
 (* ------------------------------------------------------------------ per-thread invariant *)
 Definition okq (c : qcall) : Prop :=
@@ -76,12 +123,14 @@ Local Open Scope nat_scope.
 Definition qli_pc (c p : nat) (r : regs) (a2 : Z) (h4 : Z) : Prop :=
   match c, p with
   | 0, (0|3|10|11) => r2 r = a2
-  | 1, (2|3|4|5|8|12|14|17|19|21|22|23) => True
-  | 2, (0|3|4|5|7|9|10|11) => True
+  | 1, (2|3|4|5|8|12|14|16|19|21|23|24|25) => True
+  | 2, (0|3|4|5|7|10|11|12) => True
+  | 2, 14 => picklable (r2 r) = false       (* a feeder's thread ends only over a message it cannot serialise *)
   | 3, (0|3|6) => r2 r = a2
   | 3, (9|12|13) => (1 <= h4)%Z
   | 3, 14 => True
-  | 4, (0|1|3|5|8|10|12|16|18|24|27|30) => True
+  | 4, 0 => True
+  | 4, (1|3|5|8|10|12|16|18|24|27|30) => (1 <= h4)%Z
   | 5, (0|1|4|8|11|12|15|19) => True
   | _, _ => False
   end.
@@ -99,8 +148,9 @@ Definition QLI (t : qthread) : Prop :=
 Definition QSVM : Z := 2147483647.
 Definition qv (s : nat) (g : qsys) : Z := val (nth s (qsems g) dsem).
 Definition blen (ps : pstate) : Z := Z.of_nat (length (buf ps)).
-Fixpoint zcnt (m : Z) (l : list Z) : Z :=
-  match l with [] => 0 | x :: r => (if x =? m then 1 else 0) + zcnt m r end.
+(* the messages of a tagged send log that were written by the feeder of process p, in order *)
+Definition from_proc (p : nat) (l : list (nat * Z)) : list Z :=
+  map snd (filter (fun x => Nat.eqb (fst x) p) l).
 Definition dqt : qthread := mkQT 0 false (0%nat, 0, 0, 0) 0 (qinit_regs 0 0 0) [] [] [] true.
 
 Definition qshape (M : Z) (n : nat) (ss : list sem) : Prop :=
@@ -124,8 +174,11 @@ Record QInv (M : Z) (g : qsys) : Prop := mkQInv {
                    qv (nls p) g + sumz (qt_nl p) (qthr g) = 1 /\ 0 <= qv (nls p) g;
   q_fifo : forall p, plog (nth p (procs g) dps) =
                      slog (nth p (procs g) dps) ++ ftr (nth (2 * p + 1) (qthr g) dqt) ++ buf (nth p (procs g) dps);
-  q_pipe : sendlog g = getlog g ++ pipe g;
-  q_merge : forall m, zcnt m (sendlog g) = sumz (fun ps => zcnt m (slog ps)) (procs g)
+  q_pipe : map snd (sendlog g) = getlog g ++ pipe g;
+  q_merge : forall m, zcnt m (map snd (sendlog g)) = sumz (fun ps => zcnt m (slog ps)) (procs g);
+  q_order : forall p, from_proc p (sendlog g) = slog (nth p (procs g) dps);
+  q_ret : forall m, m <> E_EMPTY -> zcnt m (getlog g) = sumz (qt_ret m) (qthr g);
+  q_unf : qv 3 g = sumz qt_unf (qthr g) /\ 0 <= qv 3 g
 }.
 
 (* the counters stay below SEM_VALUE_MAX *)
@@ -170,7 +223,7 @@ Proof. induction a as [|x a IH]; intros b; cbn; [lia|]. rewrite IH. lia. Qed.
 Ltac dn x n := match n with O => idtac | S ?m => destruct x as [|x]; [|dn x m] end.
 
 Lemma qw_01 : forall c p, 0 <= w_tr c p <= 1 /\ 0 <= w_rl c p <= 1 /\ 0 <= w_wl c p <= 1 /\ 0 <= w_nl c p <= 1.
-Proof. intros c p. dn c 6%nat; dn p 24%nat; cbn; lia. Qed.
+Proof. intros c p. dn c 6%nat; dn p 26%nat; cbn; lia. Qed.
 
 Lemma qt_01 : forall t, 0 <= qt_tr t <= 1 /\ 0 <= qt_rl t <= 1 /\ 0 <= qt_wl t <= 1 /\ forall q, 0 <= qt_nl q t <= 1.
 Proof.
@@ -195,18 +248,18 @@ Ltac qsimpw :=
        buf nw started plog slog blen a2_of] in *.
 
 Definition landed (t : qthread) : Prop :=
-  qt_tr t = 0 /\ qt_rl t = 0 /\ qt_wl t = 0 /\ (forall q, qt_nl q t = 0) /\ ftr t = [].
+  qt_tr t = 0 /\ qt_rl t = 0 /\ qt_wl t = 0 /\ (forall q, qt_nl q t = 0) /\ ftr t = [] /\ gheld t = [] /\ qw_unf t = 0.
 
 Ltac landed_tac p :=
-  unfold QLI, landed, qt_tr, qt_rl, qt_wl, qt_nl, ftr, okq, a2_of; qsimp0;
-  cbn [w_tr w_rl w_wl w_nl qli_pc nth];
+  unfold QLI, landed, qt_tr, qt_rl, qt_wl, qt_nl, ftr, gheld, qw_unf, okq, a2_of; qsimp0;
+  cbn [w_tr w_rl w_wl w_nl w_pc w_dc qli_pc nth];
   repeat split; auto; intros; try lia; try discriminate;
   try (destruct (Nat.eqb p _); reflexivity).
 
 Lemma qstart_facts : forall sc p h res ps,
     Forall okq sc -> 0 <= nth 4 h 0 ->
     exists t, qstart qcode p false h res sc ps = (t, ps) /\
-              QLI t /\ qproc t = p /\ qfeeder t = false /\ landed t.
+              QLI t /\ qproc t = p /\ qfeeder t = false /\ landed t /\ qresults t = res.
 Proof.
   intros [|[[[c a0] a1] a2] sc] p h res ps Hsc Hh.
   - eexists. split; [reflexivity|]. landed_tac p.
@@ -255,12 +308,15 @@ Lemma qinv_upd : forall M g i t t' ps' ss' pp sl gl,
      /\ 0 <= val (nth (nls (qproc t)) ss' dsem)) ->
     (forall q, q <> qproc t -> nth (nls q) ss' dsem = nth (nls q) (qsems g) dsem) ->
     plog ps' = slog ps' ++ ftr (if Nat.odd i then t' else nth (2 * qproc t + 1) (qthr g) dqt) ++ buf ps' ->
-    sl = gl ++ pp ->
-    (forall m, zcnt m sl = sumz (fun ps => zcnt m (slog ps)) (procs g)
+    map snd sl = gl ++ pp ->
+    (forall m, zcnt m (map snd sl) = sumz (fun ps => zcnt m (slog ps)) (procs g)
                            - zcnt m (slog (nth (qproc t) (procs g) dps)) + zcnt m (slog ps')) ->
+    (forall q, from_proc q sl = slog (nth q (updp (procs g) (qproc t) ps') dps)) ->
+    (forall m, m <> E_EMPTY -> zcnt m gl = sumz (qt_ret m) (qthr g) - qt_ret m t + qt_ret m t') ->
+    (val (nth 3 ss' dsem) = sumz qt_unf (qthr g) - qt_unf t + qt_unf t' /\ 0 <= val (nth 3 ss' dsem)) ->
     QInv M (mkQS ss' (upd (qthr g) i t') pp (updp (procs g) (qproc t) ps') sl gl).
 Proof.
-  intros M g i t t' ps' ss' pp sl gl HI Ht Hp Hfd Hsh Hli Hcap Hcap0 Hrl Hwl Hnl Hnlo Hfifo Hpipe Hmerge.
+  intros M g i t t' ps' ss' pp sl gl HI Ht Hp Hfd Hsh Hli Hcap Hcap0 Hrl Hwl Hnl Hnlo Hfifo Hpipe Hmerge Horder Hret Hunf.
   pose proof (q_wf M g HI i t Ht) as [Wp Wf].
   assert (Hi : (i < length (qthr g))%nat) by (apply nth_error_Some; congruence).
   assert (Hpl : (qproc t < length (procs g))%nat).
@@ -297,6 +353,31 @@ Proof.
       rewrite nth_upd_other by auto. apply (q_fifo M g HI q).
   - exact Hpipe.
   - intros m. rewrite sumz_updp by auto. apply Hmerge.
+  - exact Horder.
+  - intros m Hm. rewrite (sumz_upd _ _ _ _ _ _ Ht). apply Hret; auto.
+  - rewrite (sumz_upd _ _ _ _ _ _ Ht). exact Hunf.
+Qed.
+
+Lemma order_keep : forall g p ps',
+    (forall q, from_proc q (sendlog g) = slog (nth q (procs g) dps)) ->
+    slog ps' = slog (nth p (procs g) dps) ->
+    forall q, from_proc q (sendlog g) = slog (nth q (updp (procs g) p ps') dps).
+Proof.
+  intros g p ps' H E q. destruct (Nat.eq_dec p q) as [Eq|Eq].
+  - subst q. rewrite nth_updp_same, E. apply H.
+  - rewrite nth_updp_other by auto. apply H.
+Qed.
+
+Lemma order_send : forall g p ps' m,
+    (forall q, from_proc q (sendlog g) = slog (nth q (procs g) dps)) ->
+    slog ps' = slog (nth p (procs g) dps) ++ [m] ->
+    forall q, from_proc q (sendlog g ++ [(p, m)]) = slog (nth q (updp (procs g) p ps') dps).
+Proof.
+  intros g p ps' m H E q. unfold from_proc. rewrite filter_app, map_app. cbn [filter fst].
+  destruct (Nat.eq_dec p q) as [Eq|Eq].
+  - subst q. rewrite nth_updp_same, E, Nat.eqb_refl. cbn [map snd]. f_equal. apply H.
+  - rewrite nth_updp_other by auto. replace (Nat.eqb p q) with false by (symmetry; apply Nat.eqb_neq; auto).
+    cbn [map]. rewrite app_nil_r. apply H.
 Qed.
 
 
@@ -310,7 +391,28 @@ Ltac qgoalw :=
 
 Ltac qside := lia.    (* the context carries nls p = 8 + 2p and nss p = 9 + 2p *)
 
-Ltac qprem HI Wf Eps Imerge Hh4 Ififo Ipipe :=
+Ltac qret_tac Iret :=
+  let m := fresh "m" in let Hm := fresh "Hm" in
+  intros m Hm; unfold E_EMPTY in Hm; rewrite ?zcnt_app, <- (Iret m Hm); unfold qt_ret;
+  repeat match goal with E : qresults ?t = _ |- context [qresults ?t] => rewrite E
+                    | E : gheld ?t = [] |- context [gheld ?t] => rewrite E end;
+  cbn [rcount gheld zcnt qfin qcid qpc qcur qrg qresults fst snd r4 Nat.eqb andb];
+  repeat match goal with |- context [if ?b then _ else _] => destruct b eqn:? end; lia.
+
+Ltac qunf_tac :=
+  rewrite !qt_unf_eq;
+  repeat match goal with
+         | E : qresults ?t = _ |- context [qresults ?t] => rewrite E
+         | E : qw_unf ?t = 0 |- context [qw_unf ?t] => rewrite E
+         end;
+  cbn [qw_unf pcount dcount qfin qcid qpc qcur qresults fst snd w_pc w_dc Nat.eqb andb negb];
+  unfold V_NONE, E_VALUE, E_ASSERT, E_FULL, E_EMPTY;
+  repeat match goal with |- context [if ?b then _ else _] =>
+    first [ let v := eval vm_compute in b in lazymatch v with true => change b with true | false => change b with false end
+          | destruct b eqn:? ] end;
+  split; lia.
+
+Ltac qprem HI Wf Eps Imerge Hh4 Ififo Ipipe Iorder Iret :=
   cbn [qproc qfeeder]; rewrite <- ?Wf, <- ?Eps;
   rewrite ?nth_upds_same; rewrite ?nth_upds_other by qside;
   qgoalw; rewrite ?Nat.eqb_refl; cbn [Nat.odd];
@@ -322,12 +424,16 @@ Ltac qprem HI Wf Eps Imerge Hh4 Ififo Ipipe :=
     | exact (q_shape _ _ HI)
     | apply qshape_upds; [exact (q_shape _ _ HI) | reflexivity | reflexivity]
     | (intros q Hq; pose proof (nls_eq q); pose proof (nss_eq q); rewrite ?nth_upds_other by lia; reflexivity)
-    | (intros m; rewrite ?zcnt_app, (Imerge m); cbn [zcnt]; lia)
+    | (intros m; rewrite ?map_app, ?zcnt_app, (Imerge m); cbn [map snd zcnt]; lia)
+    | (apply order_keep; [exact Iorder | rewrite <- Eps; reflexivity])
+    | (apply order_send; [exact Iorder | rewrite <- Eps; reflexivity])
+    | qret_tac Iret
+    | qunf_tac
     | match goal with |- QLI _ =>
         unfold QLI; qgoalw; cbn [qli_pc]; rewrite ?nth_updz_same, ?nth_updz_other by qside;
         repeat split; auto; try lia; try discriminate; try (unfold okq; cbn [fst snd]; lia) end
     | (rewrite ?blen_mk in *; cbn [length] in *; rewrite ?app_length; cbn [length]; lia)
-    | (rewrite ?Ififo, ?Ipipe, <- ?app_assoc; cbn [app]; reflexivity)
+    | (rewrite ?map_app, ?Ififo, ?Ipipe, <- ?app_assoc; cbn [app map snd]; reflexivity)
     | idtac ].
 
 Ltac qabstract_thread :=
@@ -372,7 +478,8 @@ Proof.
   pose proof (q_rl M g HI) as [Irl Irl0]. pose proof (q_wl M g HI) as [Iwl Iwl0].
   pose proof (q_nl M g HI (qproc t) Hpl) as [Inl Inl0].
   pose proof (q_fifo M g HI (qproc t)) as Ififo. pose proof (q_pipe M g HI) as Ipipe.
-  pose proof (q_merge M g HI) as Imerge.
+  pose proof (q_merge M g HI) as Imerge. pose proof (q_order M g HI) as Iorder.
+  pose proof (q_ret M g HI) as Iret. pose proof (q_unf M g HI) as [Iunf Iunf0].
   destruct Hsm as (Hs3 & Hs5 & Hs6 & Hs7 & Hs9). specialize (Hs9 (qproc t)).
   pose proof (nls_eq (qproc t)) as Enl. pose proof (nss_eq (qproc t)) as Ens.
   unfold qv, QSVM in *.
@@ -400,7 +507,7 @@ Proof.
   - (* feeder *)
     destruct Hli as (_ & Hc & Hsc & Hpc). unfold qcid in Hc; cbn [qcur fst] in Hc. subst c sc.
     rewrite <- Hidx, Hnth in Ififo.
-    dn pc 12%nat; cbn [qli_pc] in Hpc; try contradiction.
+    dn pc 15%nat; cbn [qli_pc] in Hpc; try contradiction.
     all: qsimpw; rewrite ?Nat.eqb_refl in *.
     all: qsimp_in H;
       unfold sem_acq, sem_rel in H;
@@ -411,9 +518,10 @@ Proof.
     all: inversion H; subst g' e; clear H.
     all: unfold qadvance, qabort; qsimp0.
     all: repeat match goal with |- context [match ?x with [] => _ | _ :: _ => _ end] => destruct x end; qsimp0.
+    all: repeat match goal with |- context [if picklable ?x then _ else _] => destruct (picklable x) eqn:? end; qsimp0.
     all: unfold commit; cbn [qproc].
 
-    all: (eapply (qinv_upd _ _ _ _ _ _ _ _ _ _ HI Ht); qprem HI Wf Eps Imerge Hh4 Ififo Ipipe).
+    all: (eapply (qinv_upd _ _ _ _ _ _ _ _ _ _ HI Ht); qprem HI Wf Eps Imerge Hh4 Ififo Ipipe Iorder Iret).
   - (* main thread *)
     destruct Hli as [Hsc Hli]. destruct (Hli eq_refl) as [Hok Hpc]. clear Hli.
     unfold okq in Hok; cbn [qcur fst snd] in Hok. unfold qcid, a2_of in Hpc; cbn [qcur fst snd] in Hpc.
@@ -436,10 +544,10 @@ Proof.
     all: unfold commit.
     all: try match goal with |- context [qstart qcode ?p0 false ?h' ?res' ?sc' ?ps'] =>
        let SF := fresh "SF" in
-       assert (SF : exists t, qstart qcode p0 false h' res' sc' ps' = (t, ps') /\ QLI t /\ qproc t = p0 /\ qfeeder t = false /\ landed t)
+       assert (SF : exists t, qstart qcode p0 false h' res' sc' ps' = (t, ps') /\ QLI t /\ qproc t = p0 /\ qfeeder t = false /\ landed t /\ qresults t = res')
          by (apply qstart_facts; [exact Hsc | rewrite ?nth_updz_same, ?nth_updz_other by qside; lia]);
-       destruct SF as (t' & Est & Hli' & Hp' & Hf' & (L1 & L2 & L3 & L4 & L5)); rewrite Est; cbv beta iota; rewrite ?Hp' end.
-    all: (eapply (qinv_upd _ _ _ _ _ _ _ _ _ _ HI Ht); qabstract_thread; qprem HI Wf Eps Imerge Hh4 Ififo Ipipe).
+       destruct SF as (t' & Est & Hli' & Hp' & Hf' & (L1 & L2 & L3 & L4 & L5 & L6 & L7) & Hres'); rewrite Est; cbv beta iota; rewrite ?Hp' end.
+    all: (eapply (qinv_upd _ _ _ _ _ _ _ _ _ _ HI Ht); qabstract_thread; qprem HI Wf Eps Imerge Hh4 Ififo Ipipe Iorder Iret).
 Qed.
 Lemma nth_proc_sems : forall n p, (p < n)%nat ->
     nth (2 * p) (proc_sems n) dsem = ctor_Lock /\ nth (2 * p + 1) (proc_sems n) dsem = ctor_Semaphore 0.
@@ -476,7 +584,7 @@ Lemma init_threads : forall scripts p, Forall (Forall okq) scripts ->
     exists ts, qinit_threads qcode FEED p scripts = (ts, repeat dps (length scripts)) /\
                length ts = (2 * length scripts)%nat /\
                forall j t, nth_error ts j = Some t ->
-                           qproc t = (p + Nat.div2 j)%nat /\ qfeeder t = Nat.odd j /\ QLI t /\ landed t.
+                           qproc t = (p + Nat.div2 j)%nat /\ qfeeder t = Nat.odd j /\ QLI t /\ landed t /\ qresults t = [].
 Proof.
   induction scripts as [|sc scripts IH]; intros p Hs.
   - exists []. split; [reflexivity|]. split; [reflexivity|]. intros [|j] t H; discriminate.
@@ -489,10 +597,10 @@ Proof.
     intros [|[|j]] t H; cbn [nth_error] in H.
     + inversion H; subst t. cbn [Nat.div2 Nat.odd]. rewrite Nat.add_0_r. auto.
     + inversion H; subst t. cbn [Nat.div2 Nat.odd qproc qfeeder]. rewrite Nat.add_0_r.
-      split; [reflexivity|]. split; [reflexivity|]. split.
+      split; [reflexivity|]. split; [reflexivity|]. split; [|split; [|reflexivity]].
       * unfold QLI; cbn [qheld qfeeder qfin qcid qcur fst qscript qpc qrg nth]. unfold FEED. cbn [qli_pc].
         repeat split; auto; lia.
-      * unfold landed, qt_tr, qt_rl, qt_wl, qt_nl, ftr, FEED; cbn [qfin qcid qcur fst qpc qproc w_tr w_rl w_wl w_nl].
+      * unfold landed, qt_tr, qt_rl, qt_wl, qt_nl, ftr, gheld, qw_unf, FEED; cbn [qfin qcid qcur fst qpc qproc w_tr w_rl w_wl w_nl w_pc w_dc].
         repeat split; auto. intros q. destruct (Nat.eqb p q); reflexivity.
     + destruct (Hall j t H) as (A & B & C & D).
       cbn [Nat.div2]. replace (Nat.odd (S (S j))) with (Nat.odd j) by (rewrite !Nat.odd_succ, Nat.even_succ; reflexivity).
@@ -518,13 +626,15 @@ Proof.
   intros M scripts HM Hs. unfold qinit, qinit_sys.
   destruct (init_threads scripts 0 Hs) as (ts & Et & Hl & Hall). rewrite Et.
   assert (Hland : forall t, In t ts -> landed t).
-  { intros t Ht. apply In_nth_error in Ht. destruct Ht as [j Hj]. apply (Hall j t Hj). }
+  { intros t Ht. apply In_nth_error in Ht. destruct Ht as [j Hj]. destruct (Hall j t Hj) as (_ & _ & _ & L & _). exact L. }
+  assert (Hres : forall t, In t ts -> qresults t = []).
+  { intros t Ht. apply In_nth_error in Ht. destruct Ht as [j Hj]. destruct (Hall j t Hj) as (_ & _ & _ & _ & L). exact L. }
   destruct (qworld_vals M (length scripts)) as (V0 & V1 & V2 & VP).
   constructor; unfold qv; cbn [qsems qthr pipe procs sendlog getlog]; rewrite ?repeat_length.
   - apply qworld_shape.
   - exact Hl.
   - intros i t Ht. destruct (Hall i t Ht) as (A & B & _). split; [rewrite A; reflexivity|exact B].
-  - intros t Ht. apply In_nth_error in Ht. destruct Ht as [j Hj]. apply (Hall j t Hj).
+  - intros t Ht. apply In_nth_error in Ht. destruct Ht as [j Hj]. destruct (Hall j t Hj) as (_ & _ & L & _). exact L.
   - rewrite V0, sumz_repeat0 by reflexivity. rewrite (sumz_zero _ qt_tr) by (intros t Ht; apply (Hland t Ht)). cbn; lia.
   - rewrite V0; lia.
   - rewrite V1, (sumz_zero _ qt_rl) by (intros t Ht; apply (Hland t Ht)). lia.
@@ -532,10 +642,16 @@ Proof.
   - intros p Hp. rewrite (VP p Hp), (sumz_zero _ (qt_nl p)) by (intros t Ht; apply (Hland t Ht)). lia.
   - intros p. rewrite nth_repeat_dps. cbn [plog slog buf dps].
     destruct (nth_error ts (2 * p + 1)) as [t|] eqn:E.
-    + rewrite (nth_error_nth _ _ dqt E). destruct (Hall _ _ E) as (_ & _ & _ & (_ & _ & _ & _ & F)). rewrite F. reflexivity.
+    + rewrite (nth_error_nth _ _ dqt E). destruct (Hall _ _ E) as (_ & _ & _ & (_ & _ & _ & _ & F & _) & _). rewrite F. reflexivity.
     + rewrite (nth_overflow ts dqt) by (apply nth_error_None; auto). reflexivity.
   - reflexivity.
   - intros m. rewrite sumz_repeat0 by reflexivity. reflexivity.
+  - intros p. rewrite nth_repeat_dps. reflexivity.
+  - intros m Hm. cbn [zcnt]. symmetry. apply sumz_zero. intros t Ht. unfold qt_ret.
+    rewrite (Hres t Ht). destruct (Hland t Ht) as (_ & _ & _ & _ & _ & L & _). rewrite L. reflexivity.
+  - split; [|unfold qworld, queue_sems; cbn; lia].
+    rewrite (sumz_zero _ qt_unf); [reflexivity|]. intros t Ht. rewrite qt_unf_eq, (Hres t Ht).
+    destruct (Hland t Ht) as (_ & _ & _ & _ & _ & _ & L). rewrite L. reflexivity.
 Qed.
 
 Fixpoint qrun_small (g : qsys) (sched : list (nat * bool)) : Prop :=
@@ -592,13 +708,18 @@ Proof.
 Qed.
 
 (* per producer: what it appended = what its feeder sent ++ what the feeder holds ++ its
-   buffer, IN ORDER; the pipe is FIFO; the global send log is a merge of the producers' *)
+   buffer, IN ORDER; the pipe is FIFO; the global send log is an order-preserving merge of the
+   producers' send logs: its entries written by p's feeder are, in order, exactly slog p *)
 Theorem queue_fifo : forall M g, QInv M g ->
     (forall p, plog (nth p (procs g) dps) =
                slog (nth p (procs g) dps) ++ ftr (nth (2 * p + 1) (qthr g) dqt) ++ buf (nth p (procs g) dps)) /\
-    sendlog g = getlog g ++ pipe g /\
-    (forall m, zcnt m (sendlog g) = sumz (fun ps => zcnt m (slog ps)) (procs g)).
-Proof. intros M g HI. split; [apply (q_fifo M g HI)|]. split; [apply (q_pipe M g HI)|apply (q_merge M g HI)]. Qed.
+    map snd (sendlog g) = getlog g ++ pipe g /\
+    (forall p, from_proc p (sendlog g) = slog (nth p (procs g) dps)) /\
+    (forall m, zcnt m (map snd (sendlog g)) = sumz (fun ps => zcnt m (slog ps)) (procs g)).
+Proof.
+  intros M g HI. split; [apply (q_fifo M g HI)|]. split; [apply (q_pipe M g HI)|].
+  split; [apply (q_order M g HI)|apply (q_merge M g HI)].
+Qed.
 
 (* no loss, no duplication: every message appended by some put is, with its multiplicity,
    exactly once in: received, in the pipe, held by a feeder, or buffered *)
@@ -608,7 +729,7 @@ Theorem queue_no_loss_no_dup : forall M g m, QInv M g ->
     + psum (fun p => zcnt m (ftr (nth (2 * p + 1) (qthr g) dqt))) (length (procs g))
     + sumz (fun ps => zcnt m (buf ps)) (procs g).
 Proof.
-  intros M g m HI. destruct (queue_fifo M g HI) as (F1 & F2 & F3).
+  intros M g m HI. destruct (queue_fifo M g HI) as (F1 & F2 & _ & F3).
   rewrite (sumz_psum (fun ps => zcnt m (plog ps))).
   rewrite (psum_ext _ (fun p => zcnt m (slog (nth p (procs g) dps))
                                + (zcnt m (ftr (nth (2 * p + 1) (qthr g) dqt)) + zcnt m (buf (nth p (procs g) dps))))).
@@ -616,6 +737,39 @@ Proof.
   rewrite psum_add, psum_add.
   rewrite <- (sumz_psum (fun ps => zcnt m (slog ps))), <- (sumz_psum (fun ps => zcnt m (buf ps))).
   rewrite <- (F3 m), F2, zcnt_app. lia.
+Qed.
+
+(* what get returns: every message received from the pipe has been returned by exactly one
+   finished get call, or is held by a get between its receive and its return *)
+Lemma sumz_plus : forall A (f h : A -> Z) l, sumz (fun x => f x + h x) l = sumz f l + sumz h l.
+Proof. induction l as [|x l IH]; cbn; lia. Qed.
+
+Theorem get_returns_received : forall M g m, QInv M g -> m <> E_EMPTY ->
+    zcnt m (getlog g) =
+    sumz (fun t => rcount m (qresults t)) (qthr g) + sumz (fun t => zcnt m (gheld t)) (qthr g).
+Proof.
+  intros M g m HI Hm. rewrite (q_ret M g HI m Hm). unfold qt_ret. apply sumz_plus.
+Qed.
+
+(* put to get: each message, with its multiplicity among the accepted puts, is exactly:
+   returned by a get + held by a get about to return it + in the pipe + held by a feeder +
+   buffered *)
+Theorem put_get_exact : forall M g m, QInv M g -> m <> E_EMPTY ->
+    sumz (fun ps => zcnt m (plog ps)) (procs g) =
+    sumz (fun t => rcount m (qresults t)) (qthr g) + sumz (fun t => zcnt m (gheld t)) (qthr g)
+    + zcnt m (pipe g)
+    + psum (fun p => zcnt m (ftr (nth (2 * p + 1) (qthr g) dqt))) (length (procs g))
+    + sumz (fun ps => zcnt m (buf ps)) (procs g).
+Proof.
+  intros M g m HI Hm. rewrite (queue_no_loss_no_dup M g m HI), (get_returns_received M g m HI Hm). lia.
+Qed.
+
+(* the thread of a feeder ends only over a message that cannot be serialised *)
+Theorem feeder_ends_only_on_unpicklable : forall M g t, QInv M g -> In t (qthr g) ->
+    qfeeder t = true -> qpc t = 14%nat -> picklable (r2 (qrg t)) = false.
+Proof.
+  intros M g t HI Ht Hf Hp. destruct (q_li M g HI t Ht) as [_ H]. rewrite Hf in H.
+  destruct H as (_ & _ & _ & L). rewrite Hp in L. exact L.
 Qed.
 
 (* the three locks *)
@@ -657,7 +811,7 @@ Qed.
 (* a non-blocking get finds nothing only when the pipe is empty *)
 Theorem empty_only_when_nothing : forall g i t g' e,
     nth_error (qthr g) i = Some t -> qfin t = false -> qfeeder t = false ->
-    qcid t = 1%nat -> qpc t = 17%nat ->
+    qcid t = 1%nat -> qpc t = 19%nat ->
     qstep qcode g i true = Some (g', e) ->
     (snd e = 0 <-> pipe g = []).
 Proof.
@@ -665,6 +819,45 @@ Proof.
   unfold qstep in H. rewrite Ht, Hf, Hfd in H. cbn [andb] in H. rewrite Hc, Hp in H.
   cbn [qcode p_q_get nth_error flagv] in H.
   destruct (pipe g) as [|m rest]; inversion H; subst e; cbn [snd]; split; intros; try discriminate; auto.
+Qed.
+
+(* ------------------------------------------------------------------ JoinableQueue's counter
+   _unfinished_tasks = (JoinableQueue.put calls past their release of the counter)
+                     - (task_done calls past their successful acquire of it)           *)
+Theorem unfinished_count : forall M g, QInv M g -> qv 3 g = sumz qt_unf (qthr g) /\ 0 <= qv 3 g.
+Proof. intros M g HI. apply (q_unf M g HI). Qed.
+
+(* task_done raises ValueError exactly when every counted put has already been matched *)
+Theorem task_done_raises_iff_matched : forall M g i t g' e, QInv M g ->
+    nth_error (qthr g) i = Some t -> qfin t = false -> qfeeder t = false ->
+    qcid t = 4%nat -> qpc t = 1%nat ->
+    qstep qcode g i true = Some (g', e) ->
+    (snd e = 0 <-> sumz qt_unf (qthr g) = 0) /\ (snd e = 1 <-> 0 < sumz qt_unf (qthr g)).
+Proof.
+  intros M g i t g' e HI Ht Hf Hfd Hc Hp H.
+  destruct (q_shape M g HI) as (_ & _ & _ & S3 & _). destruct (S3 3%nat ltac:(auto)) as [_ Sr].
+  destruct (q_unf M g HI) as [U U0]. unfold qv in *. rewrite <- U.
+  unfold qstep in H. rewrite Ht, Hf, Hfd in H. cbn [andb] in H. rewrite Hc, Hp in H.
+  cbn [qcode p_jq_task_done nth_error flagv andb] in H. rewrite sid_sg in H.
+  unfold sem_acq in H. rewrite Sr in H. cbn [andb] in H.
+  destruct (0 <? val (nth 3 (qsems g) dsem)) eqn:Ev.
+  - inversion H; subst e; cbn [snd]. split; split; intros; try discriminate; try lia.
+  - inversion H; subst e; cbn [snd]. split; split; intros; try discriminate; try lia.
+Qed.
+
+(* join's test `_unfinished_tasks._semlock._is_zero()` (made under the condition's lock) reads
+   "zero" exactly when every counted put has been matched *)
+Theorem join_test_iff_matched : forall M g i t g' e, QInv M g ->
+    nth_error (qthr g) i = Some t -> qfin t = false -> qfeeder t = false ->
+    qcid t = 5%nat -> qpc t = 1%nat ->
+    qstep qcode g i true = Some (g', e) ->
+    (snd e = 1 <-> sumz qt_unf (qthr g) = 0).
+Proof.
+  intros M g i t g' e HI Ht Hf Hfd Hc Hp H.
+  destruct (q_unf M g HI) as [U U0]. unfold qv in *. rewrite <- U.
+  unfold qstep in H. rewrite Ht, Hf, Hfd in H. cbn [andb] in H. rewrite Hc, Hp in H.
+  cbn [qcode p_jq_join nth_error] in H. rewrite sid_sg in H.
+  destruct (val (nth 3 (qsems g) dsem) =? 0) eqn:Ev; inversion H; subst e; cbn [snd]; split; intros; try discriminate; lia.
 Qed.
 
 (* ------------------------------------------------------------------ extensionality in the program table *)
